@@ -15,7 +15,8 @@
       [equiv_edge] = not(xor), [imp_edge] = ite(f, g, taut(0)),
       [imp_strict_edge] = diff(g, f), [ite_edge], [f_edge], [t_edge],
       [var_edge], [eval_edge] (bit set indexed by level + [ones] counter),
-      [restrict] + [restrict_base] (level-threaded, don't-care nodes re-inserted);
+      [restrict] + [restrict_base] (level-threaded, don't-care nodes re-inserted; cache key
+      (Restrict, [f, vars], [num_levels]));
     - oxidd-core/src/function.rs: the defaults [not_var_edge] =
       [not_edge_owned(var_edge)] and [cofactors_edge] (children of the root).
 
@@ -409,7 +410,11 @@ Fixpoint zrestrict_base (fuel : nat) (s : snap) (vars : ref) (level : nat) : opt
     end
   end.
 
-(** [restrict(f, vars, level)]; the nested [restrict_base] gets the fuel of the enclosing call *)
+(** [restrict(f, vars, level)]; the nested [restrict_base] gets the fuel of the enclosing call.
+    The apply-cache entry is keyed by the two operand edges AND the number of levels of
+    the manager (one numeric operand, /repo f8637cd): the result depends on the number of
+    levels through the Base terminal of [vars] and the tautology chain of [restrict_base],
+    and [add_vars] does not clear the apply cache. *)
 Fixpoint zrestrict (fuel : nat) (s : snap) (c : C) (f vars : ref) (level : nat)
   : option (snap * C * ref) :=
   match fuel with
@@ -445,7 +450,9 @@ Fixpoint zrestrict (fuel : nat) (s : snap) (c : C) (f vars : ref) (level : nat)
                 end
             else if negb (Nat.eqb flevel level) then zrestrict n s c f vhi (S level)
             else
-              match cget c zcode_restrict [f; vars] [] with
+              (* [get_extended::<1, 0>(Restrict, (&[f, vars], &[num_levels]))] with
+                 [num_levels = manager.num_levels()], read once before the lookup *)
+              match cget c zcode_restrict [f; vars] [nlevels s] with
               | Some r => Some (s, c, r)
               | None =>
                 match zrestrict n s c (eref fhi) vhi (S level) with
@@ -455,7 +462,8 @@ Fixpoint zrestrict (fuel : nat) (s : snap) (c : C) (f vars : ref) (level : nat)
                   | None => None
                   | Some (s2, c2, lo) =>
                     let '(s3, r) := zmk_node s2 level hi lo in
-                    Some (s3, cadd c2 zcode_restrict [f; vars] [] r, r)
+                    (* [add_extended(Restrict, (&[f, vars], &[num_levels]), (&[res], &[]))] *)
+                    Some (s3, cadd c2 zcode_restrict [f; vars] [nlevels s] r, r)
                   end
                 end
               end
